@@ -19,3 +19,10 @@ namespace Helm.Spec
 -f files < --set-json < --set < --set-string < --set-file < --set-literal. -/
 def valueFlagOrder : List String := ["ValueFiles", "JSONValues", "Values", "StringValues", "FileValues", "LiteralValues"]
 end Helm.Spec
+
+namespace Helm.Spec
+/-- functions removed from the sprig map: the only ones that read the process environment -/
+def sprigDeleted : List String := ["env", "expandenv"]
+/-- functions Helm adds; classification: all pure except `lookup` (cluster) -/
+def extraFuncs : List String := ["fromJson", "fromJsonArray", "fromToml", "fromYaml", "fromYamlArray", "include", "lookup", "required", "toJson", "toToml", "toYaml", "toYamlPretty", "tpl"]
+end Helm.Spec
